@@ -73,8 +73,9 @@ package metrics
 // WriteString argument), for every tag value, escaped or not.
 //@ ghostdecl tagBytes uint32
 //@ func (*TagTree).encodeTagsTree
-//@   props C08
+//@   props C08 C19
 //@   assumecalleerequires
+//@   modifies allbytes
 //@   note under contract for the offset bookkeeping only; that the metadata buffer (sized from tree.numMetrics) has room for every metric of tree.rawValues is assumed at the in-place codec calls
 //@   ghostinit ghost(0, "tagBytes") == 0
 //@   loop 1:
@@ -198,4 +199,152 @@ package metrics
 //@     ghostset ghost(0, "ttFlushed") = 1
 //@   site call tt.rotateTagsTree #1:
 //@     assert [retiring-tags-trees-are-flushed-before-the-holder-is-rotated] ghost(0, "ttFlushed") == 1
+//@ end
+
+// C19 (a metrics tag key cannot leave the tags-tree directory): a tag key
+// (label name) sent by a client becomes the FILE NAME of its tags tree
+// (getTagsTreeFileName = directory + key).  Discipline, as for lookup and index
+// names: safeName(key) is established only by the validator IsValidTagKey
+// (string-level meaning ASSUMED); EncodeDatapoint, the one entry of every
+// metrics protocol, hands a holder to the tags trees only after every one of
+// its keys passed; AddTagsForTSID is the only writer of allTrees, so all keys
+// of the map are validated names (representation invariant of the holder);
+// flushSingleTagsTree is called with a validated key and opens only a confined
+// path.  On the query side a path is built from a key only after it passed.
+//@ func IsValidTagKey
+//@   assumed
+//@   pure
+//@   ensures implies(result, uf("safeName", bool, key))
+//@   note string-level meaning of the validator ("a single file name: not empty, not . or .., at most 255 bytes, no / and no NUL") is ASSUMED
+//@ end
+//@ func (*TagsHolder).GetEntries
+//@   props C19
+//@   requires th != nil && th.idx >= 0 && th.idx <= len(th.entries)
+//@   pure
+//@   ensures len(result) == th.idx && samearray(result, th.entries) && offsetof(result) == offsetof(th.entries)
+//@ end
+//@ func (*TagsHolder).firstInvalidTagKey
+//@   props C19
+//@   requires th != nil && th.idx >= 0 && th.idx <= len(th.entries)
+//@   pure
+//@   loop 1:
+//@     invariant [checked-so-far] forall(k, 0, rangeindex+1, uf("safeName", bool, th.entries[k].tagKey))
+//@   ensures [no-invalid-key-reported-only-if-every-key-passed] implies(!result1, forall(k, 0, th.idx, uf("safeName", bool, th.entries[k].tagKey)))
+//@ end
+//@ func InitTagsTree
+//@   props C19
+//@   pure
+//@   ensures result != nil
+//@ end
+//@ func (*TagTree).AddTagValue
+//@   assumed
+//@   modifies fieldsof(TagTree), fieldsof(tagInfo), mapof(tt.rawValues), elemsof(*tagInfo), elemsof(uint64), allbytes
+//@   note frame only (ASSUMED): adding a value touches this tree, its value records and their lists, not the holder's key map and not the caller's tag entries
+//@ end
+//@ func (*TagsTreeHolder).AddTagsForTSID
+//@   props C19
+//@   requires tth != nil && th != nil && th.idx >= 0 && th.idx <= len(th.entries)
+//@   requires [every-key-of-the-holder-passed-the-validator] forall(k, 0, th.idx, uf("safeName", bool, th.entries[k].tagKey))
+//@   recvinv tth forallkey(s, string, implies(haskey(tth.allTrees, s), uf("safeName", bool, s) && tth.allTrees[s] != nil))
+//@   loop 1:
+//@     invariant [only-validated-keys-name-a-tree] forallkey(s, string, implies(haskey(tth.allTrees, s), uf("safeName", bool, s) && tth.allTrees[s] != nil))
+//@     invariant [entries-untouched] th.idx == old(th.idx) && forall(k, 0, th.idx, uf("safeName", bool, th.entries[k].tagKey))
+//@   site mapupdate tth.allTrees[ #1:
+//@     assert [a-tree-is-registered-only-under-a-validated-key] uf("safeName", bool, tagEntry.tagKey)
+//@ end
+//@ func InitTagsTreeHolder
+//@   props C19
+//@   establishes result0 forallkey(s, string, implies(haskey(result0.allTrees, s), uf("safeName", bool, s) && result0.allTrees[s] != nil))
+//@ end
+//@ func (*TagsTreeHolder).rotateTagsTree
+//@   props C19
+//@   recvinv tt forallkey(s, string, implies(haskey(tt.allTrees, s), uf("safeName", bool, s) && tt.allTrees[s] != nil))
+//@ end
+//@ func GetFinalTagsTreeDir
+//@   props C19
+//@   pure
+//@ end
+//@ func createTagsTreeDirectory
+//@   props C19
+//@   pure
+//@ end
+//@ func getTagsTreeFileName
+//@   assumed
+//@   pure
+//@   ensures implies(uf("safeName", bool, key), uf("confined", bool, result))
+//@   note string-level meaning (ASSUMED): directory + a single file name stays below the directory; the directory is built by the server (GetFinalTagsTreeDir: data path, host id, segment-store id, suffix)
+//@ end
+//@ func (*TagTree).flushSingleTagsTree
+//@   props C19
+//@   requires tt != nil
+//@   requires [key-passed-the-validator] uf("safeName", bool, tagKey)
+//@   modifies allbytes
+//@   site call os.OpenFile #1:
+//@     assert [tags-tree-file-opened-only-under-the-tags-tree-directory] uf("confined", bool, arg0)
+//@   site call os.Remove #1:
+//@     assert [only-a-file-under-the-tags-tree-directory-is-removed] uf("confined", bool, arg0)
+//@ end
+//@ func (*TagsTreeHolder).EncodeTagsTreeHolder
+//@   props C19
+//@   requires tt != nil
+//@   recvinv tt forallkey(s, string, implies(haskey(tt.allTrees, s), uf("safeName", bool, s) && tt.allTrees[s] != nil))
+//@   loop 1:
+//@     invariant [key-map-untouched] forallkey(s, string, implies(haskey(tt.allTrees, s), uf("safeName", bool, s) && tt.allTrees[s] != nil))
+//@ end
+// EncodeDatapoint is the one entry of every metrics protocol (OpenTSDB, OTLP,
+// Prometheus remote write).  The holder's keys are validated before anything
+// is stored, and the same, unchanged keys are what AddTagsForTSID receives (its
+// precondition is an obligation of this function).
+//@ func EncodeDatapoint
+//@   props C19
+//@   requires tags != nil && tags.buf != nil && tags.idx >= 0 && tags.idx <= len(tags.entries)
+//@   site call mSeg.mBlock.mBlockSummary.UpdateTimeRange #1:
+//@     assume arg0 != nil
+//@ end
+// finish() cuts the entry list to the inserted entries and sorts it by key
+// (sort.Slice): the SET of keys is unchanged.  ASSUMED (a permutation argument
+// over the library sort); GetTSID, which only adds hashing, is verified on top.
+//@ func (*TagsHolder).finish
+//@   assumed
+//@   modifies fieldsof(TagsHolder), fieldsof(tagEntry)
+//@   ensures th.idx == old(th.idx) && th.idx <= len(th.entries)
+//@   ensures implies(old(forall(k, 0, th.idx, uf("safeName", bool, th.entries[k].tagKey))), forall(k, 0, th.idx, uf("safeName", bool, th.entries[k].tagKey)))
+//@   note ASSUMED: truncating to the inserted entries and sorting them permutes the keys, so "every key passed the validator" is kept
+//@ end
+//@ func (*TagsHolder).GetTSID
+//@   props C19
+//@   requires th != nil && th.buf != nil && th.idx >= 0 && th.idx <= len(th.entries)
+//@   modifies fieldsof(TagsHolder), fieldsof(tagEntry), allbytes
+//@   loop 1:
+//@     invariant [entries-only-read] th.idx == old(th.idx) && th.idx <= len(th.entries) && implies(old(forall(k, 0, th.idx, uf("safeName", bool, th.entries[k].tagKey))), forall(k, 0, th.idx, uf("safeName", bool, th.entries[k].tagKey)))
+//@   ensures [holder-still-well-formed] th.idx == old(th.idx) && th.idx <= len(th.entries)
+//@   ensures [validated-keys-stay-validated] implies(old(forall(k, 0, th.idx, uf("safeName", bool, th.entries[k].tagKey))), forall(k, 0, th.idx, uf("safeName", bool, th.entries[k].tagKey)))
+//@ end
+// Frames only (ASSUMED): the segment store's own bookkeeping does not touch the
+// caller's tags holder.
+//@ func getMetricsSegment
+//@   assumed
+//@   preserves fieldsof(TagsHolder), fieldsof(tagEntry)
+//@   ensures implies(result2 == nil && result0 != nil, result1 != nil)
+//@   note ASSUMED: a metrics segment and its tags-tree holder are registered together under the same id (initOrgMetrics); the segment store does not touch the caller's tags holder
+//@ end
+//@ func (*MetricsBlock).GetTimeSeries
+//@   assumed
+//@   preserves fieldsof(TagsHolder), fieldsof(tagEntry)
+//@ end
+//@ func initTimeSeries
+//@   assumed
+//@   preserves fieldsof(TagsHolder), fieldsof(tagEntry)
+//@ end
+//@ func (*MetricsBlock).InsertTimeSeries
+//@   assumed
+//@   preserves fieldsof(TagsHolder), fieldsof(tagEntry)
+//@ end
+//@ func (*MetricsBlock).addTsidToBlock
+//@   assumed
+//@   preserves fieldsof(TagsHolder), fieldsof(tagEntry)
+//@ end
+//@ func (*TimeSeries).AddSingleEntry
+//@   assumed
+//@   preserves fieldsof(TagsHolder), fieldsof(tagEntry)
 //@ end
